@@ -809,7 +809,15 @@ pub fn run_universe(spec: &Spec, uni: &Universe, coll: &Mutex<Collector>, limits
                     disk.remove(d);
                 }
                 let cfg = make_cfg(spec, g, versions, &w.hist, &disk, step, [0, 0]);
-                let result = analyze(&cfg, spec, faults)?;
+                let mut result = analyze(&cfg, spec, faults)?;
+                if step + 1 == spec.depth && result.terminals.len() > 1 {
+                    // last level: terminals are only needed as a sample
+                    let last = result.terminals.pop_last().unwrap();
+                    let first = result.terminals.pop_first().unwrap();
+                    result.terminals.clear();
+                    result.terminals.insert(first.0, first.1);
+                    result.terminals.insert(last.0, last.1);
+                }
                 Ok(Some(StepOut {
                     parent: *wi,
                     result,
